@@ -72,7 +72,7 @@ class Q:
 def families():
     qs = []
     # --- translator self-test (deterministic single-thread programs; prediction compared with the real code)
-    qs.append(Q("selftest_setup_S_H_opt", ["C02", "C06", "C07", "C12"], "quick", "safe", "Optimistic", "S_H", [["alloc_bytes", 2], ["free_last"]], None, [30], 1, 1,
+    qs.append(Q("selftest_setup_S_H_opt", ["C02", "C06", "C07", "C12", "C13"], "quick", "safe", "Optimistic", "S_H", [["alloc_bytes", 2], ["free_last"]], None, [30], 1, 1,
                 n1=(10, 10), selftest=True, timeout=300))
     qs.append(Q("selftest_setup_S_2_opt", ["C02", "C06", "C07", "C12"], "thorough", "safe", "Optimistic", "S_2", [["alloc_bytes", 2], ["free_last"]], None, [30], 1, 1,
                 n1=(10, 10), selftest=True, timeout=600))
